@@ -97,6 +97,14 @@ class C16(Prop):
         fails, n = [], 0
         WSP = ' \t\n\r\x0c'
         for c, o in zip(cases, impl):
+            if c in getattr(self, 'word_texts', {}):
+                n += 1
+                want = ['W' + w.encode('utf-8').hex() for w in self.word_texts[c]]
+                got = [t.split(':')[0] for t in o.split(' ') if t and not t.startswith(('_', 'C:', 'End'))]
+                if got != want:
+                    fails.append(('case: %s\nsource: %r\ntokens: %s\nexpected-words: %s' % (c, bytes.fromhex(c.split(' ')[2]).decode('utf-8'), o, want),
+                                  'a word does not extend to the next ASCII whitespace (or something else was read where a word stands)'))
+                continue
             if not c.startswith('lex all 5c28'):
                 continue
             src = bytes.fromhex(c.split(' ')[2]).decode('utf-8')
@@ -197,6 +205,29 @@ class C16(Prop):
                         continue
                     for tail in (' 7', '\n7 8', '', ' '):
                         add('\\(' + sep + ''.join(t + sep for t in body) + '\\)' + tail)
+        # words end at ASCII whitespace only: chunks that contain look-alike separators (VT, NBSP, NEL, the Unicode spaces, line /
+        # paragraph separators, ideographic space) are single words
+        look = ['\x0b', '\u0085', '\u00a0', '\u1680', '\u2000', '\u2003', '\u200a', '\u2028', '\u2029', '\u202f', '\u205f', '\u3000', '\ufeff']
+        stems = ['a', 'xy', 'é', 'dup', 'q1', '-x', '#w', ':k']
+        self.word_texts = {}
+        for _ in range(400 if not thorough else 8000):
+            chunks = []
+            for _ in range(rng.randint(1, 5)):
+                parts = [rng.choice(stems)]
+                for _ in range(rng.randint(0, 2)):
+                    parts.append(rng.choice(look))
+                    if rng.random() < 0.8:
+                        parts.append(rng.choice(stems + ['1', '7x']))
+                chunks.append(''.join(parts))
+            seps = [rng.choice(WS) for _ in chunks]
+            src = ''.join(c + w for c, w in zip(chunks, seps))
+            if rng.random() < 0.3:
+                src = rng.choice(WS) + src
+            h = src.encode('utf-8').hex()
+            if h not in seen:
+                seen.add(h)
+                cs.append('lex all %s' % h)
+                self.word_texts['lex all %s' % h] = chunks
         # token_location
         fill = ['a', 'bc', ' ', '\t', '\n', '\r\n', '\r', 'é', '日', '\U0001f600', '\n\n', ' x ']
         for _ in range(1500 if not thorough else 30000):
